@@ -14,10 +14,10 @@ import vlib, fam_archive as fa
 from vlib import Inconclusive, log
 
 PID = "C15"
-CHECKS = ["C15_SaveLoad", "C15_SaveDir", "C15_DirVsArchive", "C15_Package", "C15_IgnoredAbsent", "C15_InvalidNotPackaged"]
+CHECKS = ["C15_SaveLoad", "C15_SaveDir", "C15_DirVsArchive", "C15_Package", "C15_PackageList", "C15_IgnoredAbsent", "C15_InvalidNotPackaged"]
 PLAN = {   # family -> (cases sampled (0 = all), concretisations per case)
-    "quick":    {"roundtrip": (2400, 1), "invalid": (0, 3), "ignore": (0, 3)},
-    "thorough": {"roundtrip": (0, 2), "invalid": (0, 5), "ignore": (0, 4)},
+    "quick":    {"roundtrip": (2400, 1), "invalid": (0, 3), "ignore": (0, 3), "pkglist": (0, 1)},
+    "thorough": {"roundtrip": (0, 2), "invalid": (0, 5), "ignore": (0, 4), "pkglist": (0, 3)},
 }
 
 
@@ -40,6 +40,14 @@ def describe(case, o=None):
         if o is not None:
             s += " -> save err=%s files=%d; package err=%s files=%d; package --version err=%s files=%d" % (
                 o["saveErr"], o["saveFiles"], o["pkgErr"], o["pkgFiles"], o["pkgVerErr"], o["pkgVerFiles"])
+        return s
+    if case["fam"] == "pkglist":
+        l = case["list"]
+        s = "pkglist route=%s versions=%s appVersions=%s --version=%s --app-version=%s expected=%s/%s" % (
+            l["route"], l["vers"], l["apps"], l["vflag"], l["aflag"], case["listExpect"]["versions"], case["listExpect"]["apps"])
+        if o is not None:
+            s += " -> " + " ; ".join("file=%s meta=%s app=%s%s%s" % (r["fileVer"], r["metaVer"], r["metaApp"], " ERR " + r["msg"] if r["err"] else "",
+                                                                       " diffs=%d" % len(r["diffs"]) if r["diffs"] else "") for r in o["pkgList"])
         return s
     s = "ignore rules=%s expected-ignored=%s" % (
         [("!" if r["neg"] else "") + r["kind"] + ":" + "/".join(r["arg"]) + ("/" if r["dir"] else "") for r in case["rules"]],
@@ -126,7 +134,7 @@ def run(pid, tier, seed, replay=None):
     distinct = {o["id"] for o in obs}
     def nontrivial(c):
         if c["fam"] != "roundtrip":
-            return c["fam"] == "invalid" or len(c["rules"]) > 0
+            return c["fam"] in ("invalid", "pkglist") or len(c["rules"]) > 0
         ch = c["chart"]
         return ch["deps"] != "none" or ch["lock"] != "none" or ch["cc"] != "text" or ch["values"] not in ("text", "none") or ch["pc"] != "top"
     nt = sum(1 for i in distinct if nontrivial(by_id[i]))
@@ -140,8 +148,8 @@ def run(pid, tier, seed, replay=None):
                     diffs["%s: %s %s%s" % (op, dd["field"], dd["kind"], " (BOM stripped)" if dd["bom"] else "")] += 1
     samples, seen = [], set()
     for o in obs:
-        k = (o["fam"], o["chart"]["deps"] if o["fam"] == "roundtrip" else len(o["rules"]))
-        if k not in seen and len(samples) < 12:
+        k = (o["fam"], o["chart"]["deps"] if o["fam"] == "roundtrip" else (o["list"]["route"] if o["fam"] == "pkglist" else len(o["rules"])))
+        if k not in seen and len(samples) < 16:
             seen.add(k)
             samples.append(describe(by_id[o["id"]], o)[:700])
     coverage = dict(
